@@ -36,6 +36,8 @@ func runC17(c *Ctx) {
 	c.activityOnlyFromPeer("R17.11")
 	c.ruleOpt("R17.9", "a write deadline put on the socket is lifted again before the writer returns (gorilla keeps it for every later frame)")
 	c.stickyWriteDeadline("R17.9")
+	c.rule("R17.15", "every socket write is bounded: a write deadline is set, on every path on which a timeout is configured, before each message or control frame is written (a silent peer with a full window otherwise parks the writer, and with it the dead-peer detection, for ever)")
+	c.boundedSocketWrites("R17.15")
 	c.rule("R17.2", "pong and ping handlers signal peer activity with a non-blocking send; the activity arm renews the read deadline")
 	c.rule("R17.3", "the ping sender loops on the configured interval, writes pings under the write lock and honours its stop signal")
 	c.rule("R17.4", "keepalive is installed in the loop prologue and after every socket swap")
@@ -476,25 +478,7 @@ func (c *Ctx) stickyWriteDeadline(rule string) {
 		}
 		return ci, true
 	}
-	isZeroTime := func(v ssa.Value) bool {
-		switch x := v.(type) {
-		case *ssa.Const:
-			return x.Value == nil
-		case *ssa.UnOp:
-			if al, ok := x.X.(*ssa.Alloc); ok && x.Op == token.MUL {
-				for _, ref := range *al.Referrers() {
-					if st, isSt := ref.(*ssa.Store); isSt && st.Addr == al {
-						return false
-					}
-					if _, isCall := ref.(ssa.CallInstruction); isCall {
-						return false
-					}
-				}
-				return true
-			}
-		}
-		return false
-	}
+	isZeroTime := isZeroTimeValue
 	lift := func(in ssa.Instruction) bool {
 		ci, ok := isSet(in)
 		return ok && isZeroTime(ci.Common().Args[1])
@@ -519,6 +503,10 @@ func (c *Ctx) stickyWriteDeadline(rule string) {
 				return ok && calleeName(ci) == "(*sync.Mutex).Unlock"
 			}
 			ret := reachFrom(in, letGo, lift)
+			if ret != nil && c.everyWriteArmed() {
+				c.ok(rule, construct, c.ipos(in), "not lifted, but every socket write of the library sets a fresh deadline of its own first: a stale deadline never applies to a later frame")
+				return
+			}
 			c.check(ret == nil, rule, construct, c.ipos(in), "lifted before the writer lets go of the socket (unlock or return)", "a write deadline is left on the connection: gorilla applies it to every later frame, so a data message whose transmission outlasts it (a large request on a slow link) fails mid-write, the write error is permanent and the link is write-dead while pings still arrive — a healthy connection is lost to the keepalive's own deadline")
 		})
 	}
@@ -697,5 +685,166 @@ func (c *Ctx) dialDeadlinePerDial(rule string) {
 	}
 	if n == 0 {
 		c.ok(rule, "dial", "-", "no DialContext in the library")
+	}
+}
+
+// isZeroTimeValue: v is the zero time.Time (a nil constant aggregate, or a load of a local that is never stored to).
+func isZeroTimeValue(v ssa.Value) bool {
+	switch x := v.(type) {
+	case *ssa.Const:
+		return x.Value == nil
+	case *ssa.UnOp:
+		if al, ok := x.X.(*ssa.Alloc); ok && x.Op == token.MUL {
+			for _, ref := range *al.Referrers() {
+				if st, isSt := ref.(*ssa.Store); isSt && st.Addr == al {
+					return false
+				}
+				if _, isCall := ref.(ssa.CallInstruction); isCall {
+					return false
+				}
+			}
+			return true
+		}
+	}
+	return false
+}
+
+// socketWrites: the gorilla calls that put bytes on the socket and block while the peer does not
+// take them: data and control messages written in one call, and the start of a streamed message
+// (its Write / Close flush under the deadline in force then).
+func socketWrites(p *Prog) []ssa.CallInstruction {
+	var out []ssa.CallInstruction
+	for _, ci := range gorillaConnCalls(p) {
+		if pkgOf(ci.Parent()) != p.Root.Pkg {
+			continue
+		}
+		switch methodOf(ci) {
+		case "WriteMessage", "WriteJSON", "WritePreparedMessage", "NextWriter", "WriteControl":
+			out = append(out, ci)
+		}
+	}
+	return out
+}
+
+// noTimeoutEdgeFilter vetoes the side of a test `timeout <= 0` / `== 0` / `< 0` on which no timeout is
+// configured: there is nothing to bound a write with, by configuration.
+func (c *Ctx) noTimeoutEdgeFilter() func(*ssa.BasicBlock, int) bool {
+	isTimeout := func(v ssa.Value) bool {
+		if !isNamed(v.Type(), "time", "Duration") {
+			return false
+		}
+		f := loadedField(v)
+		return f != nil && (c.R.FTimeout == nil || f == c.R.FTimeout)
+	}
+	return func(b *ssa.BasicBlock, k int) bool {
+		iff, ok := b.Instrs[len(b.Instrs)-1].(*ssa.If)
+		if !ok {
+			return true
+		}
+		bo, ok := curFacts.aliasOf(iff.Cond).(*ssa.BinOp)
+		if !ok {
+			return true
+		}
+		op, L, R := bo.Op, bo.X, bo.Y
+		if !isTimeout(L) && isTimeout(R) {
+			op, L, R = flip(op), R, L
+		}
+		if !isTimeout(L) {
+			return true
+		}
+		if kst, isK := constInt(stripConvInt(R)); !isK || kst != 0 {
+			return true
+		}
+		if k == 1 {
+			op = negate(op)
+		}
+		return !(op == token.LEQ || op == token.EQL || op == token.LSS)
+	}
+}
+
+// unboundedWrites lists the socket writes that can start with no write deadline in force although a
+// timeout is configured: some path of the writing activity reaches the call without having passed a
+// SetWriteDeadline of a non-zero time (also inside a helper, also in the caller before a helper that
+// writes), or passes one that lifts the deadline again. WriteControl carries its own deadline argument.
+func (c *Ctx) unboundedWrites() (writes []ssa.CallInstruction, bad map[ssa.CallInstruction]string) {
+	p := c.P
+	bad = map[ssa.CallInstruction]string{}
+	isSet := func(in ssa.Instruction) (ssa.CallInstruction, bool) {
+		ci, ok := in.(ssa.CallInstruction)
+		if !ok || calleeName(ci) != "(*"+gorilla+".Conn).SetWriteDeadline" {
+			return nil, false
+		}
+		return ci, true
+	}
+	arm := func(in ssa.Instruction) bool {
+		ci, ok := isSet(in)
+		return ok && !isZeroTimeValue(ci.Common().Args[len(ci.Common().Args)-1])
+	}
+	filter := c.noTimeoutEdgeFilter()
+	writes = socketWrites(p)
+	var lifts []ssa.Instruction
+	for _, ci := range gorillaConnCalls(p) {
+		if x, ok := isSet(ci); ok && isZeroTimeValue(x.Common().Args[len(x.Common().Args)-1]) {
+			lifts = append(lifts, ci)
+		}
+	}
+	for _, w := range writes {
+		if methodOf(w) == "WriteControl" {
+			args := w.Common().Args
+			if isZeroTimeValue(args[len(args)-1]) {
+				bad[w] = "the control frame is written with the zero time as its deadline, which gorilla takes for 'no deadline'"
+			}
+			continue
+		}
+		if !mustPrecedeIPF(w, arm, filter, 0) {
+			bad[w] = "some path reaches the write without a write deadline having been set on the socket"
+			continue
+		}
+		for _, l := range lifts {
+			if reachFromF(l, func(in ssa.Instruction) bool { return in == ssa.Instruction(w) }, arm, filter) != nil {
+				bad[w] = "the write deadline is lifted (zero time) on a path to the write and not set again"
+			}
+		}
+	}
+	return writes, bad
+}
+
+func (c *Ctx) everyWriteArmed() bool {
+	writes, bad := c.unboundedWrites()
+	return len(writes) > 0 && len(bad) == 0
+}
+
+// boundedSocketWrites: R03.15 = R17.15 = R18.12. A write to a TCP socket blocks for as long as the
+// peer's window stays closed: a peer that falls silent without closing (stalled process, blackholed
+// path with data in flight) parks the writer for ever once the socket buffers are full. The library's
+// writers hold the write lock, and the connection loop writes requests itself and takes the write
+// lock in its dead-peer and stop arms: one parked writer therefore blocks the loop, the timeout
+// handling and the closer — the call never returns, the silence is never detected, Close never
+// comes back. Nothing outside the writer can interrupt it (the socket is only closed from the loop),
+// so every write has to carry a deadline: it is preceded, on every path of its activity on which a
+// timeout is configured, by SetWriteDeadline with a non-zero time that is not lifted again before the
+// write.
+func (c *Ctx) boundedSocketWrites(rule string) {
+	writes, bad := c.unboundedWrites()
+	if len(writes) == 0 {
+		c.und(rule, "socket writes", "-", "no write-side gorilla call found in the library")
+		return
+	}
+	for _, w := range writes {
+		kind := "data message"
+		if k, isK := constInt(w.Common().Args[1]); isK && len(w.Common().Args) > 1 {
+			switch k {
+			case 8:
+				kind = "close frame"
+			case 9:
+				kind = "ping"
+			case 10:
+				kind = "pong"
+			}
+		}
+		construct := fmt.Sprintf("%s: %s of a %s", fname(w.Parent()), methodOf(w), kind)
+		why, isBad := bad[w]
+		c.check(!isBad, rule, construct, c.ipos(w), "a write deadline derived from the current time is set on every path before the write (except where no timeout is configured)",
+			why+": a peer that stops reading without closing blocks this write for ever; the writer holds the write lock, which the connection loop needs to send requests, to close a timed-out socket and to answer the closer — calls stay blocked, the silent peer is never detected and Close does not return")
 	}
 }
